@@ -234,7 +234,13 @@ func (r *RecoveryExpr) String() string {
 
 // NullableVisit recursively determines whether an object is nullable.
 func (r *RecoveryExpr) NullableVisit(rules map[string]*Rule) bool {
-	r.Nullable = r.Expr.NullableVisit(rules) || r.RecoverExpr.NullableVisit(rules)
+	// both operands are visited: the flags of their sub-expressions are needed
+	// by InitialNames whichever of the two is nullable
+	nullable := r.Expr.NullableVisit(rules)
+	if r.RecoverExpr.NullableVisit(rules) {
+		nullable = true
+	}
+	r.Nullable = nullable
 	return r.Nullable
 }
 
